@@ -80,6 +80,22 @@ func contentOf(b []byte) (tag string, internalID string) {
 	return "CORRUPT:" + hex.EncodeToString(h[:4]), internalID
 }
 
+// strictContent is contentOf plus the rule about gluon's id header: a message in a normal mailbox (and its cache
+// file) carries exactly one X-Pm-Gluon-Id line; a literal rescued into the recovery mailbox is kept as handed in.
+func strictContent(b []byte, recovered bool) string {
+	tag, id := contentOf(b)
+	n := len(reGluonID.FindAll(b, -1))
+	switch {
+	case strings.HasPrefix(tag, "CORRUPT:"):
+		return tag
+	case n > 1:
+		return fmt.Sprintf("%s(with %d id header lines)", tag, n)
+	case id == "" && !recovered:
+		return tag + "(without id header)"
+	}
+	return tag
+}
+
 // Fixed remote ids of the scenario (fixture.VConn numbers what it creates: rb<n> mailboxes, rm<n> messages).
 const (
 	ridA, ridAK, ridB = "rb1", "rb2", "rb3"
@@ -272,6 +288,24 @@ func workerRun(cfg *wcfg) {
 		status, text = res.Status, res.Text
 		if res.Closed || res.TimedOut {
 			status = fmt.Sprintf("LOST(closed=%v,timeout=%v)", res.Closed, res.TimedOut)
+		}
+	case "FETCH":
+		res := s1.Cmd("FETCH 1 (BODY.PEEK[])")
+		status, text = res.Status, res.Text
+		if res.Closed || res.TimedOut {
+			status = fmt.Sprintf("LOST(closed=%v,timeout=%v)", res.Closed, res.TimedOut)
+		}
+		if res.Status == "OK" {
+			// the bytes the command returned belong to the acknowledgement: they must be the message
+			got := "no literal in the answer"
+			for _, l := range res.Untagged {
+				if strings.Contains(l.Text, " FETCH (") && len(l.Lits) > 0 {
+					got = strictContent(l.Lits[0], false)
+				}
+			}
+			if got != "m1" {
+				status, text = "WRONG-BYTES", "FETCH 1 (BODY.PEEK[]) answered OK with "+got+" instead of m1"
+			}
 		}
 	case "COPY":
 		imapCmd("COPY 1 B")
@@ -515,7 +549,8 @@ func observe(s *server) *obsState {
 			if res.Status == "OK" {
 				for _, l := range res.Untagged {
 					if strings.Contains(l.Text, " FETCH (") && len(l.Lits) > 0 {
-						m.Content, m.ID = contentOf(l.Lits[0])
+						_, m.ID = contentOf(l.Lits[0])
+						m.Content = strictContent(l.Lits[0], n == "Recovered Messages")
 					}
 				}
 			}
@@ -534,6 +569,7 @@ func observe(s *server) *obsState {
 	st := s.stb.last
 	s.stb.mu.Unlock()
 	files := map[string]string{}
+	raw := map[string][]byte{}
 	ids, err := st.List()
 	if err != nil {
 		o.Err = "store.List: " + err.Error()
@@ -546,6 +582,7 @@ func observe(s *server) *obsState {
 			continue
 		}
 		files[id.String()], _ = contentOf(b)
+		raw[id.String()] = b
 	}
 	err = cl.Read(context.Background(), func(ctx context.Context, rd db.ReadOnly) error {
 		all, err := rd.GetAllMessagesIDsAsMap(ctx)
@@ -564,6 +601,13 @@ func observe(s *server) *obsState {
 			r := obsRow{ID: id.String(), Marked: mk[id.String()], File: files[id.String()]}
 			if rid, err := rd.GetMessageRemoteID(ctx, id); err == nil {
 				r.Remote = string(rid)
+			}
+			if b, ok := raw[id.String()]; ok {
+				// the cache file of a message holds what FETCH returns: with the id header of this very row
+				r.File = strictContent(b, strings.HasPrefix(r.Remote, "GLUON-RECOVERED-MESSAGE") || r.Remote == "")
+				if _, hid := contentOf(b); hid != "" && hid != id.String() {
+					r.File += "(id header of another message)"
+				}
 			}
 			o.Rows = append(o.Rows, r)
 			delete(files, id.String())
